@@ -347,6 +347,40 @@ class Engine(object):
         self._add(t == v)
         return v
 
+    def each_value(self, x):
+        """Iterate over every feasible value of x on this path *without* forking the path.
+
+        Inside the loop body the path condition is temporarily extended by x == v; the body
+        should only state obligations (prove / canary).
+        """
+        if isinstance(x, bool):
+            x = int(x)
+        if isinstance(x, int):
+            yield x
+            return
+        if self.mode != 'symbolic':
+            raise Unsupported('each_value in %s mode' % self.mode)
+        t = z3.simplify(zint(x))
+        if z3.is_int_value(t):
+            yield t.as_long()
+            return
+        vals = []
+        while True:
+            v = self._next_value(t, vals)
+            if v is None:
+                break
+            vals.append(v)
+        for v in sorted(vals):
+            n = len(self.pc)
+            self.solver.push()
+            self._add(t == v)
+            try:
+                yield v
+            finally:
+                self.solver.pop()
+                del self.pc[n:]
+                self._dirty = True
+
     def _next_value(self, t, done):
         if len(done) >= self.MAX_FORK:
             raise Unsupported('more than %d values to fork over' % self.MAX_FORK)
@@ -726,18 +760,24 @@ class Engine(object):
     _BOUND_CACHE_LIMITS = [1 << k for k in (1, 4, 8, 15, 16, 24, 32, 56, 64)]
 
     def _bounds(self, t):
-        """Cheap (power-of-two) bounds of term t implied by the path condition."""
+        """Power-of-two bounds of term t implied by the path condition (a few solver queries)."""
+        ks = (0, 1, 4, 8, 15, 16, 23, 24, 31, 32, 55, 56, 63, 64, 112, 128)
         lo = hi = None
-        if self._check(t < 0) == z3.unsat:
+        nonneg = self._check(t < 0) == z3.unsat
+        if nonneg:
             lo = 0
-        for b in self._BOUND_CACHE_LIMITS:
+            for k in reversed(ks):
+                if self._check(t < (1 << k)) == z3.unsat:
+                    lo = 1 << k
+                    break
+        for k in ks:
+            b = 1 << k
             if hi is None and self._check(t >= b) == z3.unsat:
                 hi = b - 1
             if lo is None and self._check(t < -b) == z3.unsat:
                 lo = -b
         if lo is None or hi is None:
             return None
-        # tighten hi/lo one step by binary search (few queries)
         return (lo, hi)
 
     def floordiv(self, a, b):
